@@ -158,14 +158,17 @@ class H2Protocol:
         else:
             self.connection.initiate_connection()
         await self._flush()
+        # Started first as the upgrade request may be answered, and so
+        # need its data sent, before this method completes.
+        self.task_group.spawn(self.send_task)
         if headers is not None:
             event = _request_received(1, headers)
             await self._create_stream(event)
-            await self.streams[event.stream_id].handle(EndBody(stream_id=event.stream_id))
+            if event.stream_id in self.streams:  # Otherwise rejected, e.g. unknown server name
+                await self.streams[event.stream_id].handle(EndBody(stream_id=event.stream_id))
         # The connection may have started as HTTP/1 (prior knowledge or
         # an upgrade), which reported it busy on reading the request.
         await self.send(Updated(idle=self.idle))
-        self.task_group.spawn(self.send_task)
 
     async def send_task(self) -> None:
         # This should be run in a seperate task to the rest of this
